@@ -271,6 +271,7 @@ def onSnapSaved (w : World) (sw : SnapWorld) (toks : List String) : World × Sna
     let queued' := (w.key p, namesToNums (arg toks "queue")) :: sw.queued.filter (fun (x : Nat × List Nat) => x.1 != w.key p)
     (w, { sw with saved := saved', queued := queued' })
   | "err" => (w, sw)
+  | "hung" => (w.fail "C13" "save" s!"peer {p}: SaveSnapshot did not come back (20 s) - it was called while a fetch was in flight", sw)
   | _ => (w.fail "C13" "save" s!"peer {p}: SaveSnapshot panicked", sw)
 
 def onSnapLoaded (w : World) (sw : SnapWorld) (toks : List String) : World × SnapWorld :=
